@@ -119,6 +119,9 @@ type ServerState struct {
 	Fatal string
 	// DialHold: dials block until released.
 	DialHold bool
+	// DialLate: a held dial does not notice the cancellation of its context: it completes (successfully)
+	// when it is released - a connect that was already through when the cancellation arrived.
+	DialLate bool
 	// Silent: requests are read but never answered.
 	Silent bool
 	// HelloOnlyThenDrop: accept, read the hello, then drop the connection on
@@ -191,6 +194,9 @@ type Cluster struct {
 	// Latency per response is drawn from the tape when LatencyTape is set:
 	// 0, 1ms, 2ms, 5ms (reordering on a connection).
 	LatencyTape bool
+	// MinLatency: every response takes at least this long (a network round trip), so that a client
+	// which keeps asking makes virtual time pass.
+	MinLatency time.Duration
 	// PermuteMulti permutes results inside multi responses by the tape.
 	PermuteMulti bool
 
@@ -325,6 +331,10 @@ func (c *Cluster) Move(r *Region, addr string) {
 func (c *Cluster) Split(r *Region, at []byte, id uint64, addrA, addrB string) (*Region, *Region) {
 	c.mu.Lock()
 	defer c.mu.Unlock()
+	if !c.presentLocked(r) {
+		// (r was replaced by another layout change in the meantime: nothing to split)
+		return nil, nil
+	}
 	a := &Region{Table: r.Table, Start: r.Start, Stop: at, ID: id, Addr: addrA}
 	b := &Region{Table: r.Table, Start: at, Stop: r.Stop, ID: id, Addr: addrB}
 	a.Name = RegionName(r.Table, a.Start, a.ID, false)
@@ -338,12 +348,48 @@ func (c *Cluster) Split(r *Region, at []byte, id uint64, addrA, addrB string) (*
 func (c *Cluster) Merge(a, b *Region, id uint64, addr string) *Region {
 	c.mu.Lock()
 	defer c.mu.Unlock()
+	if !c.presentLocked(a) || !c.presentLocked(b) {
+		return nil
+	}
 	m := &Region{Table: a.Table, Start: a.Start, Stop: b.Stop, ID: id, Addr: addr}
 	m.Name = RegionName(a.Table, m.Start, m.ID, false)
 	c.removeLocked(a)
 	c.removeLocked(b)
 	c.Regions = append(c.Regions, m)
 	return m
+}
+
+// MergeIfNeighbours merges a and b if both are still part of the layout and adjacent (one atomic step).
+func (c *Cluster) MergeIfNeighbours(a, b *Region, id uint64, addr string) *Region {
+	c.mu.Lock()
+	defer c.mu.Unlock()
+	ia, ib := -1, -1
+	for i, x := range c.Regions {
+		if x == a {
+			ia = i
+		}
+		if x == b {
+			ib = i
+		}
+	}
+	if ia < 0 || ib < 0 || a.Table != b.Table || !bytes.Equal(a.Stop, b.Start) || len(a.Stop) == 0 {
+		return nil
+	}
+	m := &Region{Table: a.Table, Start: a.Start, Stop: b.Stop, ID: id, Addr: addr}
+	m.Name = RegionName(a.Table, m.Start, m.ID, false)
+	c.removeLocked(a)
+	c.removeLocked(b)
+	c.Regions = append(c.Regions, m)
+	return m
+}
+
+func (c *Cluster) presentLocked(r *Region) bool {
+	for _, x := range c.Regions {
+		if x == r {
+			return true
+		}
+	}
+	return false
 }
 
 func (c *Cluster) removeLocked(r *Region) {
@@ -476,6 +522,21 @@ func (c *Cluster) ClientCloseTimes() map[int]time.Duration {
 	return out
 }
 
+// RecentExecs formats the last n logged requests (most recent first) and the layout.
+func (c *Cluster) RecentExecs(n int) string {
+	c.mu.Lock()
+	defer c.mu.Unlock()
+	out := fmt.Sprintf("now=%v metahold=%v\n", c.now(), c.MetaHold)
+	for _, r := range c.Regions {
+		out += fmt.Sprintf("  region %q [%q,%q) @%s transient=%d\n", r.Name, r.Start, r.Stop, r.Addr, len(r.Transient))
+	}
+	for i := len(c.Execs) - 1; i >= 0 && i >= len(c.Execs)-n; i-- {
+		e := c.Execs[i]
+		out += fmt.Sprintf("  %v conn%d@%s call%d %s %s region=%q row=%q probe=%v -> %s\n", e.T, e.Conn, e.Addr, e.CallID, e.Method, e.Marker, e.Region, e.Row, e.Probe, e.Result)
+	}
+	return out
+}
+
 // ConnAddrs maps connection ids to addresses.
 func (c *Cluster) ConnAddrs() map[int]string {
 	c.mu.Lock()
@@ -560,11 +621,11 @@ func (c *Cluster) Dial(ctx context.Context, network, addr string) (net.Conn, err
 		default:
 		}
 		c.cond.Broadcast()
-		for s.DialHold && ctx.Err() == nil && !c.stopped {
+		for s.DialHold && (ctx.Err() == nil || s.DialLate) && !c.stopped {
 			c.cond.Wait()
 		}
 		stopWatch()
-		if ctx.Err() != nil || c.stopped {
+		if (ctx.Err() != nil && !s.DialLate) || c.stopped {
 			c.Dials = append(c.Dials, DialEvent{T: c.now(), Addr: addr, Result: "cancelled"})
 			c.mu.Unlock()
 			if ctx.Err() != nil {
